@@ -6,7 +6,9 @@ Parameters of the lexer model (C12).
   `unicode.IsSpace`).  They are Go library behaviour; the model takes them as a parameter.  Theorems
   quantify over every `CharClass` (some need `CharClass.AsciiExact`: agreement with the ASCII tables
   below on code points < 128).  The driver instantiates it with tables dumped from the Go toolchain's
-  `unicode` package (`Gen/UnicodeTables.lean`).
+  `unicode` package (`Gen/UnicodeTables.lean`).  The structure also carries `notInAnySpace`, the shape of
+  lexer.go `acceptWord` that the translator found in the source (two shapes are recognised, anything else is
+  refused): the model of `acceptWord` follows it (`wordBlank`, `wordEnd`), theorems hold for both values.
 * `LexTables`: the class strings, keyword lists and escape tables that lexer.go / state.go / utils.go state
   literally.  The translator regenerates them (`Gen/LexTables.lean`); `Props/C12.lean` proves that the
   regenerated value is `LexTables.std`, the value every theorem is stated for.
@@ -17,12 +19,22 @@ structure CharClass where
   isLetter : Char → Bool
   isDigit : Char → Bool
   isSpace : Char → Bool
+  /-- shape of lexer.go `acceptWord` (regenerated from the source, `Gen.acceptWordAnySpace`): `false` = it
+  skips U+0020 only and wants U+0020 or the end of input after the word; `true` = it skips every `IsSpace`
+  rune and wants anything but an `IsAlphaNumeric` rune after the word -/
+  notInAnySpace : Bool := false
 
 namespace CharClass
 /-- utils.go `IsAlphabetic` -/
 def isAlphabetic (cc : CharClass) (c : Char) : Bool := c == '_' || c == '$' || cc.isLetter c
 /-- utils.go `IsAlphaNumeric` -/
 def isAlphaNumeric (cc : CharClass) (c : Char) : Bool := cc.isAlphabetic c || cc.isDigit c
+
+/-- the runes `acceptWord` skips before the word -/
+def wordBlank (cc : CharClass) (c : Char) : Bool := if cc.notInAnySpace then cc.isSpace c else c == ' '
+/-- the runes that may follow the word of `acceptWord` (the end of input always may) -/
+def wordEnd (cc : CharClass) (c : Char) : Bool :=
+  if cc.notInAnySpace then !cc.isAlphaNumeric c else c == ' '
 
 def asciiLetter (c : Char) : Bool := ('a' ≤ c && c ≤ 'z') || ('A' ≤ c && c ≤ 'Z')
 def asciiDigit (c : Char) : Bool := '0' ≤ c && c ≤ '9'
@@ -47,6 +59,10 @@ def ofRanges (letter digit space : List (Nat × Nat × Nat)) : CharClass where
 
 theorem ofRanges_asciiExact (l d s) : (ofRanges l d s).AsciiExact :=
   ⟨fun c h => by simp [ofRanges, h], fun c h => by simp [ofRanges, h], fun c h => by simp [ofRanges, h]⟩
+
+/-- the shape of `acceptWord` has no bearing on the rune classes -/
+theorem asciiExact_with {cc : CharClass} (h : cc.AsciiExact) (b : Bool) :
+    ({ cc with notInAnySpace := b } : CharClass).AsciiExact := ⟨h.letter, h.digit, h.space⟩
 
 /-- ASCII only: every rune ≥ 128 is in no class (used in examples) -/
 def ascii : CharClass := ofRanges [] [] []
